@@ -5,6 +5,7 @@
 //!
 //! * `MSCRIPT_VERIF_TRACE=<file>`: per-activation / per-instruction / module / FFI events.
 //! * `MSCRIPT_VERIF_DUMP=<file>`: instruction streams of every function that is created.
+//!   Both files start with the opcode table (`O <byte> <name>` records).
 //! * `MSCRIPT_VERIF_TYPED_PRINT=1`: `print` prefixes values with their run-time kind.
 
 use std::cell::{Cell, RefCell};
@@ -29,10 +30,24 @@ impl Sink {
             .append(true)
             .open(path)
             .ok()?;
-        Some(Sink {
+        let mut sink = Sink {
             file,
             buf: String::new(),
-        })
+        };
+        // `O <opcode byte> <name>`: the interpreter's own opcode table, so that readers of the
+        // numeric `I` / `i` records do not depend on how opcodes happen to be numbered.
+        let mut table: Vec<(u8, &str)> = crate::instruction_constants::REPR_TO_BIN
+            .iter()
+            .filter(|(name, _)| !name.is_empty())
+            .map(|(name, byte)| (*byte, *name))
+            .collect();
+        table.sort_unstable();
+        for (byte, name) in table {
+            let _ = write!(sink.buf, "O {byte} ");
+            esc(&mut sink.buf, name);
+            sink.line(false);
+        }
+        Some(sink)
     }
 
     fn flush(&mut self) {
